@@ -122,6 +122,19 @@ func Digest(r *Run) *Obs {
 			}
 		}
 	}
+	// an argument delivery happens in the scope its consumer is constructed in
+	runAt := map[[2]int]*CtorRun{}
+	for _, run := range o.Runs {
+		runAt[[2]int{run.Reg, run.Nth}] = run
+	}
+	for i := range o.Deliveries {
+		d := &o.Deliveries[i]
+		if !d.Direct {
+			if run := runAt[[2]int{d.Consumer, d.RunNth}]; run != nil {
+				d.Scope = run.Scope
+			}
+		}
+	}
 	for i := range r.Results {
 		res := &r.Results[i]
 		if res.Class != "ok" {
